@@ -37,14 +37,14 @@ FLOOR_BASE = {"quick": 75, "thorough": 5000}    # case counts the floors below w
 FLOOR_FIXED = {"reference-call-repeats", "leak-probe-calls"}
 CLASSES = ["boundary-size", "single-variable", "matrix-gaps", "fields-only", "no-fields", "high-degree", "raw-repeated-labels",
            "stale-model", "chain-2000", "dense-40", "generic"]
-SCHED = ["empty", "zeros", "extreme", "length-1", "linear", "geometric", "list"]
+SCHED = ["empty", "zeros", "extreme", "length-1", "linear", "geometric", "list", "numbers"]
 
 
 def FLOORS(tier):
     q = tier == "quick"
     f = {"kernel-calls:c_anneal_quso": 120 if q else 20000, "kernel-calls:c_anneal_puso": 120 if q else 20000,
          "boundary-contract-checks": 250 if q else 40000, "hook-index-checks": 10 ** 5, "reference-call-repeats": 8, "leak-probe-calls": 800,
-         "sanitizer-log-polls": 300}
+         "sanitizer-log-polls": 300, "refcount-objects-checked": 5000}
     for c in CLASSES:
         f["class:" + c] = (8 if c in ("chain-2000", "dense-40") else 25) if q else 1500
     for s in SCHED:
@@ -86,7 +86,7 @@ def contract_quso(ctx, args):
         errs.append("initial state length/values")
     if num_anneals < 1:
         errs.append("num_anneals < 1")
-    if not isinstance(Ts, list) or any(not isinstance(t, (int, float)) or t != t for t in Ts):
+    if not isinstance(Ts, list) or any(not hasattr(t, "__float__") or float(t) != float(t) for t in Ts):
         errs.append("schedule not a list of numbers")
     if not all(isinstance(x, float) for x in h) or not all(isinstance(x, float) for x in J):
         errs.append("h/J not floats")
@@ -110,7 +110,7 @@ def contract_puso(ctx, args):
         errs.append("initial state length/values")
     if num_anneals < 1:
         errs.append("num_anneals < 1")
-    if not isinstance(Ts, list) or any(not isinstance(t, (int, float)) or t != t for t in Ts):
+    if not isinstance(Ts, list) or any(not hasattr(t, "__float__") or float(t) != float(t) for t in Ts):
         errs.append("schedule not a list of numbers")
     return errs
 
@@ -134,7 +134,21 @@ def setup(ctx):
                     na = args[5]
                     return [[1] * max(n, 0) for _ in range(max(na, 0))], [0.0] * max(na, 0)
             _state["last_kernel_args"] = (_name, args[5], (args[0] if _name == "c_anneal_puso" else len(args[0])), len(args[4]))
-            return _orig(*args)
+            # reference accounting at the C boundary: the call may not change the reference count of anything the caller
+            # handed in (the argument objects and the items of the argument lists); sanitizers cannot see this
+            flat = list(args)
+            for a_ in args:
+                if isinstance(a_, (list, tuple)):
+                    flat.extend(a_[:64])
+            before = [sys.getrefcount(o) for o in flat]
+            out = _orig(*args)
+            after = [sys.getrefcount(o) for o in flat]
+            ctx.count("refcount-objects-checked", len(flat))
+            bad = [(type(o).__name__, repr(o)[:40], b, a) for o, b, a in zip(flat, before, after) if a != b]
+            if bad:
+                _state["pending"].append((_name, ["reference count of a caller-owned %s object changed across the call (%s: %d -> %d)" % (
+                    bad[0][0], bad[0][1], bad[0][2], bad[0][3])]))
+            return out
         setattr(mod, name, wrapped)
     _state["ref"] = reference_results()
     _state["logpos"] = {}
@@ -306,6 +320,17 @@ def finish_kwargs(rng, cfg):
         kw["schedule"] = [rng.choice([1e300, 1e-300, 5e-324, 1.7e308, 1, 0]) for _ in range(rng.randint(1, 5))]
     elif s == "length-1":
         kw["schedule"] = [rng.choice([0.5, 2, 0])]
+    elif s == "numbers":
+        # "an iterable of floats" in practice: anything float() accepts -- Fractions, numpy scalars, Decimals, big ints
+        from fractions import Fraction
+        import decimal
+        import numpy as np
+        pool = [lambda: Fraction(rng.randint(1, 9), rng.randint(1, 4)), lambda: np.float32(rng.choice([0.5, 2.25])),
+                lambda: np.int64(rng.randint(1, 5)), lambda: rng.randint(257, 5000), lambda: decimal.Decimal("1.5"),
+                lambda: np.float64(0.75), lambda: float(rng.randint(1, 3))]
+        kw["schedule"] = [rng.choice(pool)() for _ in range(rng.randint(1, 6))]
+        if rng.random() < 0.3:
+            kw["schedule"] = tuple(kw["schedule"])
     elif s in ("linear", "geometric"):
         kw["schedule"] = s
         kw["anneal_duration"] = rng.choice([1, 2, 7] if big else [1, 2, 30, 200])
@@ -337,6 +362,9 @@ def case(ctx, rng, idx):
     except Exception as e:   # noqa
         res, exc = None, e
     for name, errs in _state["pending"]:
+        if errs[0].startswith("reference count"):
+            ctx.violation("refcount:%s:caller-owned-object-changed" % name, "%s: %s" % (name, errs[0]), w)
+            continue
         ctx.violation("kernel-precondition:%s:%s" % (name, errs[0].split(" (")[0]),
                       "%s called with arguments violating the kernel's precondition: %s" % (name, "; ".join(errs)), w)
     polled = poll_sanitizer_logs(ctx, w)
